@@ -157,6 +157,123 @@ fn run_program(p: &mut Program) -> Result<(Vec<String>, Vec<String>, String), (S
     }
 }
 
+/// composites that mention one variable at several positions - `(v, v) op (w, w)`, `(v, (v, v)) op (w, (w, w))`,
+/// `(v, v) / w` - next to the same composites written with a literal at every position. The result is also
+/// consumed at its type (bound to a name, compared with the literal form), so a component typed differently the
+/// second time it occurs shows as a rejection. Both programs are accepted and print the reference's lines, or both
+/// are rejected.
+fn repeated_variable_check(acc: &mut Stats, d: &Domain, op: Option<BinOp>) {
+    let scalar = d.name == "int" || d.name == "float";
+    let shapes: Vec<&str> = match op {
+        Some(BinOp::Div) if scalar => vec!["pair", "nested", "pair-by-scalar"],
+        _ => vec!["pair", "nested"],
+    };
+    let is_cmp = matches!(op, Some(BinOp::Eq | BinOp::Ne | BinOp::Lt | BinOp::Gt | BinOp::Le | BinOp::Ge));
+    let opname = op.map(|o| o.text().to_string()).unwrap_or("neg".into());
+    for shape in shapes {
+        let build = |with_vars: bool| -> (Program, usize) {
+            let mut ts = tops();
+            for (k, a) in d.values.iter().enumerate() {
+                ts.push(Top::Def { name: format!("v{}", k), mutable: true, ty: None, value: a.clone() });
+            }
+            let atom = |k: usize, vars: bool| if vars { var(&format!("v{}", k)) } else { d.values[k].clone() };
+            let comp = |k: usize, vars: bool, right: bool| -> Expr {
+                match shape {
+                    "pair" => tup(vec![atom(k, vars), atom(k, vars)]),
+                    "nested" => tup(vec![atom(k, vars), tup(vec![atom(k, vars), atom(k, vars)])]),
+                    _ => if right { atom(k, vars) } else { tup(vec![atom(k, vars), atom(k, vars)]) },
+                }
+            };
+            let mut stmts: Vec<Vec<Stmt>> = Vec::new();
+            let n = d.values.len();
+            let pairs: Vec<(usize, usize)> = match op {
+                Some(_) => (0..n).flat_map(|k| (0..n).map(move |l| (k, l))).collect(),
+                None => (0..n).map(|k| (k, k)).collect(),
+            };
+            for (k, l) in &pairs {
+                let e = |vars: bool| match op {
+                    Some(o) => bin(o, comp(*k, vars, false), comp(*l, vars, true)),
+                    None => un(UnOp::Neg, Expr::Paren(Box::new(comp(*k, vars, false)))),
+                };
+                let mut one = Vec::new();
+                if is_cmp {
+                    one.push(print_of(e(with_vars)));
+                } else {
+                    let r = format!("r{}_{}", k, l);
+                    one.push(def(&r, e(with_vars)));
+                    one.push(print_of(var(&r)));
+                    if d.eq {
+                        one.push(print_of(bin(BinOp::Eq, var(&r), e(false))));
+                    }
+                }
+                stmts.push(one);
+            }
+            let mut calls = Vec::new();
+            for (ci, chunk) in stmts.chunks(6).enumerate() {
+                let name = format!("rpart{}", ci);
+                ts.push(top_fn(&name, vec![], RetAnn::Void, chunk.iter().flatten().cloned().collect()));
+                calls.push(Stmt::Expr(callv(&name, vec![])));
+            }
+            let mut start_body = Vec::new();
+            for (gi, chunk) in calls.chunks(20).enumerate() {
+                let name = format!("rgroup{}", gi);
+                ts.push(top_fn(&name, vec![], RetAnn::Void, chunk.to_vec()));
+                start_body.push(Stmt::Expr(callv(&name, vec![])));
+            }
+            ts.push(start_fn(start_body));
+            (Program { tops: ts }, pairs.len())
+        };
+        let (mut with_vars, npairs) = build(true);
+        let (mut with_lits, _) = build(false);
+        acc.programs += 2;
+        let a = run_program(&mut with_vars);
+        let b = run_program(&mut with_lits);
+        let what = format!("{} {} {}", d.name, opname, shape);
+        let mut fail = |acc: &mut Stats, sig: &str, detail: String, text: &str, extra: serde_json::Value| {
+            acc.outcome(sig);
+            let mut files = serde_json::Map::new();
+            files.insert(MAIN.to_string(), json!(text));
+            let mut case = json!({"engine": "c19", "files": files});
+            if let (Some(o), Some(e)) = (case.as_object_mut(), extra.as_object()) {
+                for (k, v) in e {
+                    o.insert(k.clone(), v.clone());
+                }
+            }
+            acc.fail(Failure { sig: format!("{}:{}", sig, opname), preds: vec![format!("domain:{}", d.name), format!("repeated-variable:{}", shape)], detail, case, size: text.len() });
+        };
+        match (a, b) {
+            (Ok((lua, reference, text)), Ok(_)) => {
+                acc.states += npairs as u64;
+                acc.traces_validated += 1;
+                acc.nontrivial(fnv(format!("repeated {}", what).as_bytes()));
+                let mut bad = None;
+                for idx in 0..reference.len().max(lua.len()) {
+                    acc.evaluations += 1;
+                    if lua.get(idx) != reference.get(idx) {
+                        bad = Some(idx);
+                        break;
+                    }
+                }
+                match bad {
+                    None => acc.outcome("repeated-variable:agrees-with-structural-definition"),
+                    Some(idx) => fail(acc, "wrong-result", format!("{} with one variable at every position: line {} is {:?}, the structural definition gives {:?}", what, idx, lua.get(idx), reference.get(idx)), &text, json!({"line": idx, "expected": reference.get(idx)})),
+                }
+            }
+            (Err((sa, _, _)), Err((sb, _, _))) if sa == "rejected" && sb == "rejected" => {
+                acc.count(&format!("rejected-by-compiler:repeated-variable {}", what), 1);
+            }
+            (Err((sa, da, ta)), Ok(_)) if sa == "rejected" => {
+                fail(acc, "typed-for-literals-but-rejected-for-one-variable-repeated", format!("{}: the program with a literal at every position is accepted, the one that mentions a variable several times is rejected: {}", what, da), &ta, json!({"expect": "accepted"}));
+            }
+            (Ok((_, _, ta)), Err((sb, db, _))) if sb == "rejected" => {
+                fail(acc, "rejected-for-literals-but-accepted-for-one-variable-repeated", format!("{}: the program with a literal at every position is rejected ({}), the one that mentions a variable several times is accepted", what, db), &ta, json!({"expect": "rejected"}));
+            }
+            (Err((sa, da, ta)), _) => fail(acc, &sa, da, &ta, json!({})),
+            (_, Err((sb, db, tb))) => fail(acc, &sb, db, &tb, json!({})),
+        }
+    }
+}
+
 pub fn run(run: &mut Run) {
     let thorough = run.thorough();
     let doms = domains(thorough);
@@ -188,6 +305,9 @@ pub fn run(run: &mut Run) {
     let results = crate::pool::par_items(&jobs, 1, |_| (Stats::new(), Vec::new()), |(acc, mats): &mut (Stats, Vec<(usize, String, Vec<String>)>), _, job| {
         let d = &doms[job.domain];
         let others: &Vec<Expr> = if job.mixed { &doms[1].values } else { &d.values };
+        if !job.mixed {
+            repeated_variable_check(acc, d, job.op);
+        }
         let mut body = Vec::new();
         let mut labels = Vec::new();
         match job.op {
@@ -419,7 +539,7 @@ pub fn run(run: &mut Run) {
     }
     library_values(&mut st);
     run.stats = st;
-    run.rule = "value domains: ints, floats, strings, bools, tuples of arity 0-3 (int, float/int, int/str, nested), lists (of ints, tuples, lists), a two-field blob, a blob nesting a blob, an enum with payload / without / tuple payload; every ordered pair of each domain (as literals, through variables, and as constants assembled from component globals declared after them) under every operator the checker types for it (== != < <= > >= + - * / and unary -), int x float under < >; enum values made by the standard library (list.get / last / pop / find, dict.get) against the same values written in source, bare and nested in tuples and lists, under == and != (121 ordered pairs x 5 nestings); non-trivial = every evaluated operator application; distinct by operands+operator".into();
+    run.rule = "value domains: ints, floats, strings, bools, tuples of arity 0-3 (int, float/int, int/str, nested), lists (of ints, tuples, lists), a two-field blob, a blob nesting a blob, an enum with payload / without / tuple payload; every ordered pair of each domain (as literals, through variables, and as constants assembled from component globals declared after them) under every operator the checker types for it (== != < <= > >= + - * / and unary -), int x float under < >; the same operators on composites that mention one variable at every position ((v, v), (v, (v, v)), and (v, v) / w for numbers) with the result bound to a name and compared with the form that has a literal at every position - both forms accepted with the reference's output or both rejected; enum values made by the standard library (list.get / last / pop / find, dict.get) against the same values written in source, bare and nested in tuples and lists, under == and != (121 ordered pairs x 5 nestings); non-trivial = every evaluated operator application; distinct by operands+operator".into();
     run.bounds = json!({"domains": doms.iter().map(|d| json!({"name": d.name, "values": d.values.len()})).collect::<Vec<_>>()});
     run.assumptions = vec![
         "the structural definition is RefSylt's (element-wise arithmetic, lexicographic order, structural equality), the laws are checked on the Lua results alone".into(),
@@ -513,6 +633,9 @@ pub fn replay(case: &serde_json::Value) -> Option<(String, String)> {
             let r = run_lua(&lua, 50_000_000);
             if r.end != LuaEnd::Done {
                 return Some(("lua-error".into(), format!("{:?}", r.end)));
+            }
+            if case["expect"] == "rejected" {
+                return Some(("accepted".into(), "the form with a literal at every position is rejected".into()));
             }
             let line = case["line"].as_u64()? as usize;
             let want = case["expected"].as_str()?;
